@@ -343,7 +343,7 @@ pub fn go_history(rep: &Report, cmds: &[(String, Option<Option<u64>>)]) -> (u64,
     }
 }
 
-fn go_histories(rep: &Report, thorough: bool) -> J {
+fn go_histories(rep: &Report, thorough: bool) -> (J, u64, u64) {
     let mut all_positions: Vec<(String, String, bool)> = GO_NORMAL_POSITIONS.iter().map(|(n, c)| (n.to_string(), c.to_string(), false)).collect();
     for (n, f) in EXPLOSION_POSITIONS {
         all_positions.push((n.to_string(), explosion_command(f), true));
@@ -384,7 +384,7 @@ fn go_histories(rep: &Report, thorough: bool) -> J {
     let hits: u64 = results.iter().map(|r| r.1).sum();
     let worst: u64 = results.iter().map(|r| r.2).max().unwrap_or(0);
     eprintln!("[C07] go histories: {} ({} single), {} budgeted gos judged, deadline inside the search in {}, max overrun {} ({:.1}s)", hs.len(), singles, judged, hits, worst, rep.elapsed());
-    J::obj()
+    let part = J::obj()
         .set("histories", hs.len())
         .set("single_command_histories", singles)
         .set("budgeted_go_commands_judged", judged)
@@ -393,7 +393,8 @@ fn go_histories(rep: &Report, thorough: bool) -> J {
         .set("positions", all_positions.iter().map(|p| p.1.clone()).collect::<Vec<_>>())
         .set("first_commands", GO_SETTERS.iter().map(|g| g.to_string()).chain(GO_BUDGETED.iter().map(|g| g.0.to_string())).collect::<Vec<_>>())
         .set("judged_commands", GO_BUDGETED.iter().map(|g| g.0.to_string()).chain(std::iter::once(GO_LONG_BUDGET.0.to_string())).collect::<Vec<_>>())
-        .set("rule", "history = position A; go a; [ucinewgame]; position B; go b on a fresh engine through the real command handler under the node clock (1 node = 1 ms); A over the normal positions, a over all first commands, B over all positions incl. the quiescence-explosion ones, b over the budgeted commands; every budgeted go must end within budget + limit nodes (budget = the movetime given, or the limit the engine itself derived from the clocks)")
+        .set("rule", "history = position A; go a; [ucinewgame]; position B; go b on a fresh engine through the real command handler under the node clock (1 node = 1 ms); A over the normal positions, a over all first commands, B over all positions incl. the quiescence-explosion ones, b over the budgeted commands; every budgeted go must end within budget + limit nodes (budget = the movetime given, or the limit the engine itself derived from the clocks)");
+    (part, judged, hits)
 }
 
 pub fn replay_go(cmds: &str) -> i32 {
@@ -578,13 +579,16 @@ pub fn run(which: &'static str, tier: &str, seed: u64, out: &str) {
     }
     let mut go_part = J::Null;
     if which == "C07" && !rep.saturated() {
-        go_part = go_histories(&rep, thorough);
+        let (part, judged, hits) = go_histories(&rep, thorough);
+        go_part = part;
+        evaluations += judged;
+        nontrivial += hits;
     }
     let cov = J::obj()
         .set("evaluations", evaluations)
         .set("distinct_nontrivial", nontrivial)
         .set("go_command_histories", go_part)
-        .set("rule", "a case = (position, depth, deadline node N) [C06 also (N1, N2)]: fresh Searcher, search interrupted exactly at node N under the node clock; non-trivial = the deadline actually fell inside the search (should_stop answered true before the search finished)")
+        .set("rule", "a case = (position, depth, deadline node N) [C06 also (N1, N2)]: fresh Searcher, search interrupted exactly at node N under the node clock; non-trivial = the deadline actually fell inside the search; the budgeted go commands of the command-level histories count as cases too")
         .set("overrun_limit_nodes", OVERRUN_LIMIT)
         .set("max_nodes_after_deadline_seen", max_overrun)
         .set("sweeps", J::Arr(per))
